@@ -43,6 +43,10 @@ pub fn scratch_for(worker: usize) -> PathBuf {
 }
 
 pub fn cleanup_scratch() {
+    if std::env::var("STORESIM_KEEP").is_ok() {
+        eprintln!("keeping scratch at {}", scratch_base().display());
+        return;
+    }
     let _ = std::fs::remove_dir_all(scratch_base());
 }
 
